@@ -32,7 +32,8 @@ static size_t bignKeyWrap_deep(size_t n, size_t f_deep, size_t ec_d,
 	size_t ec_deep)
 {
 	return O_OF_W(3 * n) + 32 +
-		utilMax(2,
+		utilMax(3,
+			ecpIsOnA_deep(n, f_deep),
 			ecMulA_deep(n, ec_d, ec_deep, n),
 			beltKWP_keep());
 }
@@ -94,7 +95,8 @@ err_t bignKeyWrap(octet token[], const bign_params* params, const octet key[],
 	}
 	// R <- k Q
 	if (!qrFrom(ecX(R), pubkey, ec->f, stack) ||
-		!qrFrom(ecY(R, n), pubkey + no, ec->f, stack))
+		!qrFrom(ecY(R, n), pubkey + no, ec->f, stack) ||
+		!ecpIsOnA(R, ec, stack))
 	{
 		blobClose(state);
 		return ERR_BAD_PUBKEY;
